@@ -1,0 +1,53 @@
+// +build verif
+
+package p2p
+
+// Tag-only accessors for the runtime-monitoring harness (/verif, property C15). Nothing in
+// this file is compiled without the build tag "verif"; it adds no behaviour, only thin
+// wrappers around unexported functions of this package.
+
+import (
+	"crypto/ecdsa"
+	"io"
+)
+
+// VerifServerEncHandshake runs the unexported server side of the encryption handshake.
+func VerifServerEncHandshake(conn io.ReadWriter, prv *ecdsa.PrivateKey) (aes []byte, remote NodeID, err error) {
+	s, err := serverEncHandshake(conn, prv, nil)
+	if err != nil || s == nil {
+		return nil, NodeID{}, err
+	}
+	return s.Aes, s.RemoteID, nil
+}
+
+// VerifClientEncHandshake runs the unexported client side of the encryption handshake.
+func VerifClientEncHandshake(conn io.ReadWriter, prv *ecdsa.PrivateKey, remoteID *NodeID) (aes []byte, err error) {
+	s, err := clientEncHandshake(conn, prv, remoteID)
+	if err != nil || s == nil {
+		return nil, err
+	}
+	return s.Aes, nil
+}
+
+// VerifReadHandshakeBuf runs the unexported handshake frame reader (magic, length, ECIES).
+func VerifReadHandshakeBuf(conn io.ReadWriter, prv *ecdsa.PrivateKey) ([]byte, error) {
+	return readHandshakeBuf(conn, prv)
+}
+
+// VerifAesKey returns the session key of a handshaken peer (nil for foreign implementations).
+func VerifAesKey(p IPeer) []byte {
+	if pp, ok := p.(*Peer); ok {
+		return pp.aes
+	}
+	return nil
+}
+
+// VerifPackFrame runs the unexported frame packer with the given session key.
+func VerifPackFrame(aes []byte, code MsgCode, msg []byte) ([]byte, error) {
+	return (&Peer{aes: aes}).packFrame(code, msg)
+}
+
+// VerifUnpackFrame runs the unexported frame unpacker with the given session key.
+func VerifUnpackFrame(aes []byte, content []byte) (MsgCode, []byte, error) {
+	return (&Peer{aes: aes}).unpackFrame(content)
+}
